@@ -165,8 +165,10 @@ func judgeC01(c SrvCase) []Violation {
 			}
 			size := uint64(len(f.data))
 			if st != 0 {
+				// a READ may be refused only when its offset is not a file offset at all (above 2^63-1) or offset+count
+				// leaves the 64-bit range; a range that merely extends past 2^63-1 from a valid offset is "beyond EOF"
 				end := new(bigInt).add(o.Off, uint64(o.Count))
-				if end.fitsInt64() {
+				if o.Off <= math.MaxInt64 && !end.hi && end.lo != math.MaxUint64 {
 					bad("read-refused", fmt.Sprintf("READ off=%d count=%d of a %d byte file failed with status %d", o.Off, o.Count, size, st), o)
 				}
 				continue
